@@ -383,7 +383,7 @@ func TestC19Rest(t *testing.T) {
 				c.failf("HARNESS-ERROR: a snapshot was stored although its insert is made to fail")
 			}
 		}
-		pushedBetween := false
+		pushedBetween, largeTarget := false, false
 		var lastTarget interface{}
 		clientPushedAfterLast := false
 		npatch := rapid.IntRange(1, 3).Draw(rt, "patches")
@@ -395,6 +395,18 @@ func TestC19Rest(t *testing.T) {
 			} else {
 				var edits []string
 				target = c19Edit(rt, fmt.Sprintf("t%d", pi), deepCopy(cur), 3, &edits)
+			}
+			if rapid.IntRange(0, 11).Draw(rt, fmt.Sprintf("large%d", pi)) == 0 {
+				// a target whose patch needs more than a thousand operations (one transaction unit)
+				if tm, ok := target.(map[string]interface{}); ok {
+					n := rapid.SampledFrom([]int{1030, 1100, 2060}).Draw(rt, fmt.Sprintf("largen%d", pi))
+					big := make([]interface{}, n)
+					for i := range big {
+						big[i] = float64(i)
+					}
+					tm["big"] = big
+					largeTarget = true
+				}
 			}
 			tb, _ := json.Marshal(target)
 			c.j.add(map[string]interface{}{"k": "rest-patch", "target": string(tb)})
@@ -471,7 +483,7 @@ func TestC19Rest(t *testing.T) {
 				}
 			}
 		}
-		col.Case(base == "without-snapshot" || pushedBetween, canon.String(), []string{"base=" + base, fmt.Sprintf("clients=%d", nclients), dep}, func() interface{} {
+		col.Case(base == "without-snapshot" || pushedBetween, canon.String(), append([]string{"base=" + base, fmt.Sprintf("clients=%d", nclients), dep}, map[bool][]string{true: {"patch-of->1000-operations"}, false: nil}[largeTarget]...), func() interface{} {
 			return map[string]interface{}{"scenario": canon.String()}
 		})
 	})
